@@ -16,9 +16,12 @@ def run(F, rep):
     rep.run(dt_compress.extender_table, F, rep, "C09.1", graph_route=True)
     rep.run(dt_tables.graph_step_table, F, rep, "C09.2")
     rep.run(dt_compress.graph_builder_table, F, rep, "C09.3")
+    # ... and the three private functions of the graph route interpreted together on scripted lines of nodes
+    rep.run(dt_compress.graph_chain_table, F, rep, "C09.3")
     rep.run(dt_compress.graph_driver_table, F, rep, "C09.5")
     # "no extension left pointing at a removed or absent node": the pruning the driver relies on, and the link resolution under it
     rep.run(dt_graph.find_link_table, F, rep, "C09.6")
+    rep.run(dt_graph.finish_tables, F, rep, "C09.6")
     rep.run(dt_graph.get_valid_exts_table, F, rep, "C09.6")
     rep.run(dt_graph.fix_exts_table, F, rep, "C09.6")
     rep.run(dt_graph.sequence_of_path_table, F, rep, "C09.6")
